@@ -1,5 +1,19 @@
 From Coq Require Import ZArith List.
-From PV Require Import Base.U64 C12.C12_Model C12.C12_Mem C12.C12_Proofs.
+From PV Require Import Base.U64 C12.C12_Model C12.C12_Mem C12.C12_MemC C12.C12_Iov C12.C12_Deser C12.C12_Walk C12.C12_Proofs.
+Theorem deser_in_bounds_no_trap : forall hstep sh m v,
+  shape_wf sh -> inv m v ->
+  exists t st, deserialize hstep cfg_final sh m v = Ok (t, st) /\ inv (d_mem st) (d_iov st) /\
+               ext (lens m) (lens (d_mem st)) /\ (t <> 0%Z -> ptr_ok (lens (d_mem st)) t (sh_size sh)).
+Proof. exact deserialize_no_trap. Qed.
+Print Assumptions deser_in_bounds_no_trap.
+Theorem deser_in_bounds_fields_partial : forall hstep sh m v,
+  shape_wf sh -> fields_simple (sh_fields sh) -> (forall base, pairwise_disj (fsranges (sh_fields sh) base)) -> inv m v ->
+  exists t st, deserialize hstep cfg_final sh m v = Ok (t, st) /\
+    (t <> 0%Z -> ptr_ok (lens (d_mem st)) t (sh_size sh) /\
+                 wgood_fs (d_mem st) (sh_fields sh) t /\
+                 exists its, w_fields cfg_final (sh_fields sh) (d_mem st) t = Ok its).
+Proof. exact deserialize_fields_in_bounds_partial. Qed.
+Print Assumptions deser_in_bounds_fields_partial.
 Theorem sorted_map_lookup_in_bounds : forall m a k ip inn bp bn,
   mem_bytes m -> mem_wf m ->
   validb (lens m) a 32 = true ->
